@@ -540,6 +540,14 @@ class Analysis:
         st.rel.pop(l, None)
         self.forget_about(st, l)
 
+    def _below_pred(self, st, x, res):
+        """res == x - 1 (no wrap): every key known to be strictly below x is <= res."""
+        for b_key in list(st.ub):
+            if key_root(b_key) == key_root(res) or b_key == res:
+                continue
+            if x in self.uppers(st, b_key)[1]:
+                st.le[b_key] = st.le.get(b_key, frozenset()) | {res}
+
     def index_value(self, st, e):
         if e[0] == "idx":
             return self.get(st, e[1])
@@ -903,6 +911,7 @@ class Analysis:
                 moved_rel = st.rel[rv["a"]["l"]]
             if rv["r"] == "bin" and rv["op"].endswith("WithOverflow"):
                 pair_up = None
+                pair_pred = None
                 # checked arithmetic pair (value, overflowed)
                 tt = self.v.local_ty(l)
                 etn = tt["ts"][0]["n"] if (tt.get("k") == "tuple" and tt["ts"] and tt["ts"][0].get("k") == "prim") else None
@@ -938,10 +947,16 @@ class Analysis:
                                     sy = st.sym.get(e)
                                     if sy is not None and sy[0] == "sub" and sy[2] == kb and sa[1] - sy[1] + 1 >= 0:
                                         ex = (max(ex[0], sa[1] - sy[1] + 1), ex[1])
-                        if ka is not None and not is_c(ka) and b[0] >= 0 and a[0] >= b[1]:
+                        nw_ = b[0] >= 0 and a[0] >= b[1]
+                        if not nw_ and ka is not None and kb is not None and not is_c(ka) and not is_c(kb) and b[0] >= 0 \
+                                and (ka == kb or ka in self.uppers(st, kb)[0]):
+                            nw_ = True
+                        if ka is not None and not is_c(ka) and nw_:
                             ge_a, st_a = self.uppers(st, ka)
                             ge_a = frozenset(k_ for k_ in ge_a | {ka} if key_root(k_) != l)
                             pair_up = (ge_a, ge_a if b[0] >= 1 else frozenset(k_ for k_ in st_a if key_root(k_) != l))
+                            if b == (1, 1) and key_root(ka) != l:
+                                pair_pred = ka
                     elif op == "Mul":
                         c = [a[0] * b[0], a[0] * b[1], a[1] * b[0], a[1] * b[1]]
                         ex = (min(c), max(c))
@@ -969,6 +984,8 @@ class Analysis:
                         st.le[k0] = frozenset(pair_up[0])
                     if pair_up[1]:
                         st.ub[k0] = frozenset(pair_up[1])
+                    if pair_pred is not None:
+                        self._below_pred(st, pair_pred, k0)
                 return
             if rv["r"] == "agg" and rv.get("kind") in ("tuple", "adt"):
                 pre = (("dc", rv["vidx"]),) if (rv.get("kind") == "adt" and self._is_enum(rv["def"])) else ()
@@ -1036,6 +1053,8 @@ class Analysis:
         iv, alias = self.eval_rvalue(st, rv, rng, tn)
         symv = None
         rel_up = None    # (ge keys, strict keys) inherited by the result
+        pred_of = None
+        copy_of = None
         if rv["r"] == "bin" and rv["op"] in ("Sub", "SubUnchecked") and rng is not None and rng[0] == 0:
             ka, kb = self.operand_key(st, rv["a"]), self.operand_key(st, rv["b"])
             a_, _ = self.eval_operand(st, rv["a"])
@@ -1047,17 +1066,24 @@ class Analysis:
                 rb_ = st.rel.get(kb) if isinstance(kb, int) else None
                 if rb_ is not None and rb_[0] == "satsub" and rb_[1] == ka:
                     iv = (min(a_[0], rb_[2]), min(a_[1], rb_[2]))    # a - a.saturating_sub(c) == min(a, c)
-            if ka is not None and not is_c(ka) and b_ is not None and a_ is not None and b_[0] >= 0 and a_[0] >= b_[1]:
+            no_wrap = b_ is not None and a_ is not None and b_[0] >= 0 and a_[0] >= b_[1]
+            if not no_wrap and ka is not None and kb is not None and not is_c(ka) and not is_c(kb) and b_ is not None \
+                    and b_[0] >= 0 and (ka == kb or ka in self.uppers(st, kb)[0]):
+                no_wrap = True      # b <= a is known as a relation (`(len - 1) - i` with i < len)
+            if ka is not None and not is_c(ka) and b_ is not None and a_ is not None and no_wrap:
                 # result = a - c with c >= 0 and no wrap: every upper bound of a bounds the result (strictly if c >= 1);
                 # also covers the self-decrement `x = x - 1` (bounds that mention x itself are dropped)
                 ge_a, st_a = self.uppers(st, ka)
                 ge_a = frozenset(k_ for k_ in (ge_a | {ka}) if key_root(k_) != l and k_ != l)
                 rel_up = (ge_a, ge_a if b_[0] >= 1 else frozenset(k_ for k_ in st_a if key_root(k_) != l))
+                if b_ == (1, 1) and key_root(ka) != l:
+                    pred_of = ka    # the result is the predecessor of a: everything strictly below a is <= the result
         elif rv["r"] == "use" and rng is not None:
             sk = self.operand_key(st, rv["a"]) if rv["a"].get("o") in ("copy", "move") else None
             if sk is not None and not is_c(sk) and key_root(sk) != l:
                 ge_a, st_a = self.uppers(st, sk)
                 rel_up = (frozenset(k_ for k_ in ge_a if key_root(k_) != l), frozenset(k_ for k_ in st_a if key_root(k_) != l))
+                copy_of = sk
         if rv["r"] == "bin" and rv["op"] in ("Sub", "Add") and rng is not None:
             ka, kb = self.operand_key(st, rv["a"]), self.operand_key(st, rv["b"])
             if rv["op"] == "Sub" and ka is not None and kb is not None and is_c(ka) and not is_c(kb):
@@ -1108,6 +1134,16 @@ class Analysis:
                 st.le[l] = ge_
             if st_:
                 st.ub[l] = st_
+        if pred_of is not None and l not in self.escaped:
+            self._below_pred(st, pred_of, l)
+        if copy_of is not None and l not in self.escaped:
+            # a copy is also an upper bound of everything its source bounds
+            for b_key in list(st.le):
+                if copy_of in st.le[b_key] and key_root(b_key) != l:
+                    st.le[b_key] = st.le[b_key] | {l}
+            for b_key in list(st.ub):
+                if copy_of in st.ub[b_key] and key_root(b_key) != l:
+                    st.ub[b_key] = st.ub[b_key] | {l}
         if castrel is not None:
             st.rel[l] = castrel
         if symv is not None:
@@ -1135,6 +1171,11 @@ class Analysis:
     def call_effect(self, st, t):
         """Apply a call terminator's effect on the destination."""
         name = ir.callee_name(t["fn"])
+        d_ = t["fn"].get("def") if isinstance(t["fn"], dict) else None
+        if d_ in ("core::cmp::Ord::min", "core::cmp::Ord::max") and name is not None and name not in self.v.prog.bodies:
+            # the driver reports the `cmp` these forward to (for the call graph); on primitive integers the
+            # operation itself is what matters here
+            name = d_
         dest = t["dest"]
         d = dest["l"]
         args = t["args"]
